@@ -1,11 +1,11 @@
 package main
 
 import (
-	"os"
-	"sort"
 	"encoding/binary"
 	"encoding/json"
 	"fmt"
+	"os"
+	"sort"
 	"strconv"
 	"strings"
 	"time"
